@@ -180,16 +180,15 @@ func VF_C14_a_degenerate() {
 // governance transactions: every network kind x every governance recipient (or another one) x small payload set
 // (absent, arbitrary short bytes, a few call documents)
 var vfC14CfgShape = vf.CallShape{
-	Names:   []string{"v1stake", "v1voteDAO", NameCreate, SetContractOwner, "appendAdmin"},
+	Names:   []string{"v1voteDAO", SetContractOwner, "appendAdmin"},
 	SymName: []int{1},
 	MaxArgs: 1,
 	SymStr:  []int{1},
-	Nums:    []float64{1}, NumText: []string{"1"},
-	ArgKinds: 3,
+	ArgKinds: 2,
 }
 
 func VF_C14_a_cfg() {
-	InitGovernance([]string{"dpos", "raft", "sbp"}[vf.Choice("consensus", 3)], vf.Choice("govPublic", 2) == 1)
+	InitGovernance([]string{"dpos", "raft"}[vf.Choice("consensus", 2)], vf.Choice("govPublic", 2) == 1)
 	var recipient []byte
 	switch vf.Choice("recipient", 5) {
 	case 0:
